@@ -1,6 +1,7 @@
 import Lace.Props.C11
 import Lace.Props.C11Trace
 import Lace.Props.C11Demo
+import Lace.Props.C11Text
 #print axioms Lace.C11.bp_sorted_nodup
 #print axioms Lace.C11.bp_pause_before_exec
 #print axioms Lace.C11.exec_rearms
@@ -22,3 +23,13 @@ import Lace.Props.C11Demo
 #print axioms Lace.C11.assemble_breaks
 #print axioms Lace.C11.runLoop_execs_eq_trace
 #print axioms Lace.C11.nextReads_length
+#print axioms Lace.C11.breaks_render
+#print axioms Lace.C11.debugger_breakpoints_render
+#print axioms Lace.C11.break_marks_next_statement
+#print axioms Lace.C11.break_trailing
+#print axioms Lace.C11.break_occupies_no_memory
+#print axioms Lace.C11.break_occupies_no_memory_render
+#print axioms Lace.C11.mem_breaks_iff
+#print axioms Lace.C11.breaks_incr
+#print axioms Lace.C11.parse_tokens_breaks
+#print axioms Lace.C11.parse_items_breaks
